@@ -1,6 +1,6 @@
 (* C17 - the property statements derived from the refinement. *)
 Require Import V.Lib.Base V.Lib.Dec V.Gen.Consts_C17 V.C17.Model V.C17.Spec V.C17.ProofsList V.C17.ProofsInv
-               V.C17.ProofsGrow V.C17.ProofsNum V.C17.ProofsOps V.C17.ProofsRun.
+               V.C17.ProofsGrow V.C17.ProofsNum V.C17.ProofsOps V.C17.ProofsRun V.C17.ProofsDecode.
 Local Open Scope Z_scope.
 
 (* reachable concrete states and their abstract counterparts *)
@@ -229,4 +229,10 @@ Proof.
   unfold areach. rewrite (arun_appends_fixed ops (ainit 2 cap ini) []); try reflexivity; try exact Hall.
   - unfold alimit, ainit. cbn [atext acap Z.eqb Pos.eqb]. rewrite len_nil. destruct (Z.eqb_spec cap 0); lia.
   - cbn [ainit atext Z.eqb Pos.eqb]. now rewrite zfirstn_nil.
+Qed.
+
+Lemma run_case_refines k cap r : 0 <= k <= 3 -> 0 <= cap -> run_case (k :: cap :: r) = arun_case (k :: cap :: r).
+Proof.
+  intros Hk Hc. unfold run_case, arun_case. destruct (take r) as [ini r'].
+  apply run_refines; auto. apply decode_ops_ok.
 Qed.
